@@ -22,10 +22,10 @@ package main
 
 import (
 	"bufio"
+	"context"
 	"encoding/base64"
 	"encoding/binary"
 	"encoding/json"
-	"context"
 	"flag"
 	"fmt"
 	"net"
@@ -1117,11 +1117,36 @@ func restart(rec *Recorded, pl *Plan) (res *Result) {
 			res.Trouble = "probe SUBACK: " + err.Error()
 			return
 		}
-		for _, x := range ids {
+		released := map[string]bool{} // ids the probe completed with PUBREL and used again
+		for xi, x := range ids {
 			a := conns[x.c]
 			res.Checked++
 			res.NIds++
 			topic := fmt.Sprintf("~pr/%s/%d", x.c, x.pid)
+			if (pl.K+xi)%2 == 1 {
+				// the other half of the exchange: the publisher does not re-send the PUBLISH, it completes the exchange
+				// (PUBREL -> PUBCOMP); the identifier is free then, and a NEW message under it must be forwarded
+				rel := mw.Ack(mw.PUBREL, uint16(x.pid), 0)
+
+				if err := a.c.Send(rel); err != nil {
+					div("rel_probe_failed", "fe:no_pubcomp_after_restart", x.c, strconv.Itoa(x.pid), err.Error())
+					continue
+				}
+				if _, err := a.expect(tAck, func(p *mw.Packet) bool { return p.Type == mw.PUBCOMP && p.PacketID == uint16(x.pid) }); err != nil {
+					div("rel_probe_failed", "fe:no_pubcomp_after_restart", x.c, strconv.Itoa(x.pid), err.Error())
+					continue
+				}
+				np := mw.Publish(topic, 2, false, uint16(x.pid), []byte("~new"))
+
+				if err := a.c.Send(np); err == nil {
+					if _, err := a.expect(tAck, func(p *mw.Packet) bool { return p.Type == mw.PUBREC && p.PacketID == uint16(x.pid) }); err != nil {
+						div("rel_probe_failed", "fe:no_pubrec_for_reused_id", x.c, strconv.Itoa(x.pid), err.Error())
+						continue
+					}
+				}
+				released[topic] = true
+				continue
+			}
 			pk := mw.Publish(topic, 2, false, uint16(x.pid), []byte("~dup"))
 			pk.Dup = true
 			if err := a.c.Send(pk); err != nil {
@@ -1137,6 +1162,16 @@ func restart(rec *Recorded, pl *Plan) (res *Result) {
 		if _, err := probe.expect(tAck, func(p *mw.Packet) bool { return p.Type == mw.PUBLISH && p.Topic == "~pr/end" }); err != nil {
 			res.Trouble = "probe end marker: " + err.Error()
 			return
+		}
+		for _, p := range probe.inbox {
+			if p.Type == mw.PUBLISH && string(p.Payload) == "~new" {
+				delete(released, p.Topic)
+			}
+		}
+		for topic := range released {
+			parts := strings.Split(topic, "/")
+			div("qos2_id_not_released", "fe:qos2_id_stuck_after_restart", parts[1], parts[len(parts)-1],
+				"PUBREC had been read before the crash; after the restart PUBREL was answered with PUBCOMP, but a NEW PUBLISH under the same packet id was acknowledged and not forwarded")
 		}
 		for _, p := range probe.inbox {
 			if p.Type == mw.PUBLISH && string(p.Payload) == "~dup" {
